@@ -231,6 +231,8 @@ func runC01(c *Ctx) {
 	}
 	wireFraming(c, n)
 	runFanoutPartialFailure(c)
+	runFanoutOwnership(c)
+	runRecvKeepsBytes(c)
 	wirePool(c)
 
 	sizes := []int{0, 1, 5, 63, 64, 65, 127, 128, 129, 255, 256, 257, 511, 512, 513, 1023, 1024, 1025, 4095, 4096, 4097, 8191, 8192, 8193, 65535, 65536, 65537}
